@@ -41,13 +41,15 @@ func buildPatchExpiredSelectionPredicate(sw swamp.Swamp, filters *hydrapb.Filter
 
 	candidates := collectBucketCandidates(sw, plan.Hints)
 	set := candidateKeySet(candidates)
-	residual := plan.Residual
 
+	// The candidates were collected before the engine's selection runs and a
+	// record may have been patched since, so they only serve as a fast
+	// reject: the complete filter, not plan.Residual, decides.
 	return func(t treasure.Treasure) bool {
 		if _, in := set[t.GetKey()]; !in {
 			return false
 		}
-		return evaluateNativeFilterGroup(t, residual)
+		return evaluateNativeFilterGroup(t, filters)
 	}, nil
 }
 
